@@ -3,6 +3,7 @@ CONSTANTS
   CT = FALSE
   TwoKeys = FALSE
   Wl2 = FALSE
+  SameCls = FALSE
   MaxInit = 1
   EarlyForget = FALSE
   SwallowList = FALSE
